@@ -102,7 +102,11 @@ def run_job(job):
         import hypothesis
         from hypothesis import HealthCheck, Phase, given, settings
 
-        phases = [Phase.explicit, Phase.generate, Phase.target]
+        # Phase.target is deliberately NOT used: Hypothesis' hill-climbing optimiser (find_integer probing on float
+        # nodes, served from its test-function cache, hence not counted against max_examples) stalled single shards
+        # for > 6 minutes (C04 seed 1 shard 13; C02 12 min).  Thin regions are reached by generator classes instead;
+        # the "target" values returned by the oracles are only aggregated as max statistics in the evidence.
+        phases = [Phase.explicit, Phase.generate]
         if part.shrink.get(tier, True):
             phases.append(Phase.shrink)
         sett = settings(
@@ -131,7 +135,7 @@ def run_job(job):
                 @sett
                 @given(part.strategy(tier))
                 def test(case):
-                    run_one(part, case, stats, use_target=True)
+                    run_one(part, case, stats, use_target=False)
 
                 test()
         except Violation:
